@@ -330,8 +330,9 @@ func removePattern(str, pat string, fromEnd, shortest bool) string {
 	}
 	switch {
 	case fromEnd && shortest:
-		// use .* to get the right-most shortest match
-		expr = ".*(" + expr + ")$"
+		// use .* to get the right-most shortest match;
+		// like in patterns, it must match newlines too
+		expr = "(?s).*(" + expr + ")$"
 	case fromEnd:
 		// simple suffix
 		expr = "(" + expr + ")$"
